@@ -198,9 +198,14 @@ theorem readChunks_total (f : Bytes) (wavesize : Nat) (hf : f.length < 429496729
             · omega
     · exact ⟨some w, by simp [hc], by intro w' h; cases h; omega⟩
 
-theorem readWav_total' (f : Bytes) (hf : f.length < 4294967295) :
-    ∃ r, readWav f = .ok r ∧ ∀ w', r = some w' → w'.data0.length ≤ f.length + 1 := by
+theorem readWav_total' (f : Bytes) :
+    ∃ r, readWav f = .ok r ∧ ∀ w', r = some w' → w'.data0.length ≤ f.length + 1 ∧ f.length ≤ 2147483647 := by
   unfold readWav
+  split
+  · exact ⟨_, rfl, by intro _ h; cases h⟩
+  rename_i hmax
+  simp only [Tables.wave_maxFileSize] at hmax
+  have hf : f.length < 4294967295 := by omega
   split
   · exact ⟨_, rfl, by intro _ h; cases h⟩
   · rename_i hlen
@@ -220,18 +225,18 @@ theorem readWav_total' (f : Bytes) (hf : f.length < 4294967295) :
           simp only
           split
           · exact ⟨_, rfl, by intro _ h; cases h⟩
-          · exact ⟨_, rfl, by intro w' h; cases h; exact hb w rfl⟩
+          · exact ⟨_, rfl, by intro w' h; cases h; exact ⟨hb w rfl, by omega⟩⟩
 
-theorem readWav_total (f : Bytes) (hf : f.length < 4294967295) : ∃ r, readWav f = .ok r := by
-  obtain ⟨r, hr, _⟩ := readWav_total' f hf
+theorem readWav_total (f : Bytes) : ∃ r, readWav f = .ok r := by
+  obtain ⟨r, hr, _⟩ := readWav_total' f
   exact ⟨r, hr⟩
 
-theorem readWav_data_le (f : Bytes) (wf : WaveFile) (hf : f.length < 4294967295) (hr : readWav f = .ok (some wf)) :
+theorem readWav_data_le (f : Bytes) (wf : WaveFile) (hr : readWav f = .ok (some wf)) :
     wf.data0.length ≤ f.length + 1 := by
-  obtain ⟨r, hr', hb⟩ := readWav_total' f hf
+  obtain ⟨r, hr', hb⟩ := readWav_total' f
   rw [hr] at hr'
   cases hr'
-  exact hb wf rfl
+  exact (hb wf rfl).1
 
 /-! ### add_sample never runs into undefined behaviour -/
 
@@ -251,7 +256,7 @@ theorem applyArgs_err (args : List String) (h0 : Sample) (e : Err) (h : applyArg
 theorem addSample_total (b : Bank) (rs : List Win) (inv : Inv b rs) (h : Sample) (data : Bytes) (hd : data.length < 1073741824) :
     (∃ r, addSample b h data = .ok r) ∨ addSample b h data = .error .noFit ∨ addSample b h data = .error .tooLong := by
   unfold addSample
-  by_cases hl : h.size > data.length
+  by_cases hl : h.start + h.size > data.length
   · simp [hl]
   · have hb0 : ¬ b.bankSize = 0 := by have := inv.bankPos; omega
     simp only [hl, hb0, if_false]
@@ -264,7 +269,7 @@ theorem addSample_total (b : Bank) (rs : List Win) (inv : Inv b rs) (h : Sample)
       · rename_i hfit
         obtain ⟨_, _, p3, p4, _⟩ := placeFresh_spec b rs h.size inv (by omega) hfit
         have hrl := inv.romLen
-        have : ¬ (data.length < h.size ∨ b.rom.length < (placeFresh b h.size).2.1 + h.size) := by
+        have : ¬ (data.length < h.start + h.size ∨ b.rom.length < (placeFresh b h.size).2.1 + h.size) := by
           omega
         simp only [this, if_false]
         exact Or.inl ⟨_, rfl⟩
@@ -280,13 +285,13 @@ theorem addSampleTag_total (b : Bank) (rs : List Win) (inv : Inv b rs) (file : O
   | _ :: args, none => simp
   | _ :: args, some f =>
     have hfl := hf f rfl
-    obtain ⟨r, hr⟩ := readWav_total f (by omega)
+    obtain ⟨r, hr⟩ := readWav_total f
     simp only [hr]
     match r, hr with
     | none, _ => simp
     | some wf, hr =>
       simp only
-      have hd := readWav_data_le f wf (by omega) hr
+      have hd := readWav_data_le f wf hr
       obtain ⟨h0, hh0⟩ : ∃ h0 : Sample, h0 = ⟨0, 0, wf.slength, wf.lstart, wf.lend, wf.srate, wf.transpose, 0⟩ := ⟨_, rfl⟩
       rw [← hh0]
       match happ : applyArgs args h0 with
